@@ -388,6 +388,7 @@ func init() {
 		"math/bits.OnesCount": func(st *State, f *Frame, c *ssa.Call, a []Value) {
 			ret(st, f, PopCount64(a[0].(*Term)))
 		},
+
 		// encoding/json for fixed arrays of unsigned integers: an abstract lossless
 		// encoding (the words, little endian, in a tagged byte block). JSON syntax is
 		// trusted; what is decided is the arche code around the two calls.
@@ -734,4 +735,51 @@ func init() {
 		}
 		ret(st, f, nil)
 	}
+}
+
+// bitsFamily registers the math/bits scan functions for one operand width.
+func bitsFamily(suffix string, w uint8) {
+	widen := func(x *Term) *Term {
+		if x.W < w { // uint (64 bit) argument of the unsuffixed functions
+			return ZExt(x, w)
+		}
+		if x.W > w {
+			return Extract(x, w-1, 0)
+		}
+		return x
+	}
+	intrinsics["math/bits.TrailingZeros"+suffix] = func(st *State, f *Frame, c *ssa.Call, a []Value) {
+		x := widen(a[0].(*Term))
+		r := C(64, uint64(w))
+		for i := int(w) - 1; i >= 0; i-- {
+			r = Ite(Eq(Extract(x, uint8(i), uint8(i)), C(1, 1)), C(64, uint64(i)), r)
+		}
+		ret(st, f, r)
+	}
+	lenOf := func(x *Term) *Term {
+		r := C(64, 0)
+		for i := 0; i < int(w); i++ {
+			r = Ite(Eq(Extract(x, uint8(i), uint8(i)), C(1, 1)), C(64, uint64(i+1)), r)
+		}
+		return r
+	}
+	intrinsics["math/bits.Len"+suffix] = func(st *State, f *Frame, c *ssa.Call, a []Value) {
+		ret(st, f, lenOf(widen(a[0].(*Term))))
+	}
+	intrinsics["math/bits.LeadingZeros"+suffix] = func(st *State, f *Frame, c *ssa.Call, a []Value) {
+		ret(st, f, Bin(OSub, C(64, uint64(w)), lenOf(widen(a[0].(*Term)))))
+	}
+	if _, ok := intrinsics["math/bits.OnesCount"+suffix]; !ok {
+		intrinsics["math/bits.OnesCount"+suffix] = func(st *State, f *Frame, c *ssa.Call, a []Value) {
+			ret(st, f, PopCount64(ZExt(widen(a[0].(*Term)), 64)))
+		}
+	}
+}
+
+func init() {
+	bitsFamily("", 64)
+	bitsFamily("64", 64)
+	bitsFamily("32", 32)
+	bitsFamily("16", 16)
+	bitsFamily("8", 8)
 }
